@@ -70,6 +70,8 @@ func TestCheck(t *testing.T) {
 		"L2: seeded op sequences against real Backoff instances (logical: interval/period/duration 1h so verdicts do not depend on timing; key masks for every prefix length; " +
 		"timed: window slide-out, counter-entry expiry, back-off entry/exit) judged by interval arithmetic over wall-clock stamps taken before/after each call. " +
 		"L3: agd.DefaultRatelimiter and the full middleware via dnssvc.NewHandlers. " +
+		"L5: the rate-limit allow-list through the real backendpb.RateLimiter.Refresh and profile rate-limit settings through the real backendpb.ProfileStorage from an in-process gRPC backend " +
+		"(prefix lengths /0 /1 /8 /24 /32 and ::/0 /1 /48 /128, alone and combined), judged against what the backend sent. " +
 		"L4: the built program started with backoff_period != backoff_duration in its YAML (both orders), plain-DNS UDP queries from three loopback /24s each, same model and interval arithmetic. " +
 		"distinct = (layer, family, normalised configuration/sequence); non-trivial = the case contains at least one decided must-drop and one decided must-pass observation " +
 		"(L1: one above step and one not-above step after an earlier above or with an earlier event outside the window)")
@@ -104,6 +106,7 @@ func TestCheck(t *testing.T) {
 	layer3Profile(r)
 	layer3Stack(r)
 	layer3StackSlow(r)
+	layer5Delivery(r)
 	waitBinary()
 
 	r.Require("l1_adds", 100000)
@@ -130,6 +133,14 @@ func TestCheck(t *testing.T) {
 	r.Require("l2_large_resp_window_drop", 6)
 	r.Require("l2_slow_handler_window_drop", 8)
 	r.Require("l3_stack_slow_handler_dropped", 4)
+	r.Require("l3_stack_v4mapped_requests", 200)
+	r.Require("l5_backend_allowlisted_by_zero_prefix", 6)
+	r.Require("l5_backend_allowlisted_pass_over_limit", 30)
+	r.Require("l5_backend_not_allowlisted_drop", 20)
+	r.Require("l5_backend_profile_inside_zero_prefix", 4)
+	r.Require("l5_backend_profile_inside_decided", 20)
+	r.Require("l5_backend_profile_outside_global", 8)
+	r.Require("l5_backend_stack_profile_drop", 8)
 	r.Require("l4_binary_in_backoff_after_period", 2)
 	r.Require("l4_binary_served_after_duration", 4)
 	r.Require("l3_profile_decided", 20)
@@ -1838,9 +1849,13 @@ type stack struct {
 	terminal   atomic.Int64
 	respSize   atomic.Int64
 	delay      atomic.Int64 // ns the terminal handler needs to produce its response
-	errs       atomic.Int64
-	prof       *agd.Profile
-	profIPs    map[netip.Addr]bool
+	// mapped: IPv4 clients arrive in the 16-byte IPv4-mapped form
+	// (::ffff:a.b.c.d), as on a dual-stack [::]:53 listener.
+	mapped   bool
+	mappedRq atomic.Int64
+	errs     atomic.Int64
+	prof     *agd.Profile
+	profIPs  map[netip.Addr]bool
 }
 
 func discardLogger() *slog.Logger { return slog.New(slog.NewTextHandler(io.Discard, nil)) }
@@ -1964,12 +1979,18 @@ func (s *stack) serve(enc bool, ip netip.Addr, qt uint16, id uint16) (ran int64,
 	ctx := dnsserver.ContextWithServerInfo(ctxBG, &dnsserver.ServerInfo{Name: "srv", Addr: "94.149.14.14", Proto: proto})
 	ctx = dnsserver.ContextWithRequestInfo(ctx, &dnsserver.RequestInfo{StartTime: time.Now()})
 	var local, remote net.Addr
+	rip := net.IP(ip.AsSlice())
+	if s.mapped && ip.Is4() {
+		a16 := ip.As16()
+		rip = net.IP(a16[:])
+		s.mappedRq.Add(1)
+	}
 	if enc {
 		local = &net.TCPAddr{IP: net.IP{94, 149, 14, 14}, Port: port}
-		remote = &net.TCPAddr{IP: ip.AsSlice(), Port: 40000 + int(id%1000)}
+		remote = &net.TCPAddr{IP: rip, Port: 40000 + int(id%1000)}
 	} else {
 		local = &net.UDPAddr{IP: net.IP{94, 149, 14, 14}, Port: port}
-		remote = &net.UDPAddr{IP: ip.AsSlice(), Port: 40000 + int(id%1000)}
+		remote = &net.UDPAddr{IP: rip, Port: 40000 + int(id%1000)}
 	}
 	rw := &recRW{local: local, remote: remote}
 	req := mkReq(qt)
@@ -2052,6 +2073,7 @@ func layer3StackSlow(r *vkit.Run) {
 		if i%3 == 2 {
 			ips = []netip.Addr{rand6(g), rand6(g), rand6(g)}
 		}
+		s.mapped = i%2 == 0
 		list = append(list, slowCase{s, gl, c, ips, int(n) + g.IntN(3), i})
 	}
 	parallel(len(list), len(list), func(x int) {
@@ -2140,6 +2162,9 @@ func stackSlowAttempt(r *vkit.Run, st *stack, gl *stackLimiter, c bcfg, ip netip
 					if ks.loWithoutLagged(check2.A, ivl) < n {
 						key = "stack:slow-handler:served"
 					}
+					if sc.s.mapped && sc.ip.Is4() {
+						key = strings.Replace(key, "stack:", "stack:v4mapped:", 1)
+					}
 					r.Violation(key, "a plain-DNS query was served although its subnet has `limit` or more events within the interval: the events of a large response that a slow handler produced within the interval (the request itself was received more than one interval ago)", trace)
 				}
 			case hi < n:
@@ -2196,6 +2221,8 @@ func stackCase(r *vkit.Run, i int) {
 		return
 	}
 	s.respSize.Store(50)
+	s.mapped = (i/2)%2 == 0
+	defer func() { r.Bucket("l3_stack_v4mapped_requests", s.mappedRq.Load()) }()
 	var trace []map[string]any
 	id := uint16(0)
 	stepped := false
@@ -2216,7 +2243,7 @@ func stackCase(r *vkit.Run, i int) {
 			stepped = true
 		}
 		o := obs{ran, writes, gl.checks.Load() - chk, tb.UnixNano(), ta.UnixNano()}
-		trace = append(trace, map[string]any{"who": who, "encrypted": enc, "ip": ip.String(), "qtype": qtypeName[qt],
+		trace = append(trace, map[string]any{"who": who, "encrypted": enc, "ip": ip.String(), "v4_mapped_form": s.mapped && ip.Is4(), "qtype": qtypeName[qt],
 			"terminal_ran": ran, "messages_written": writes, "global_limiter_consulted": o.checks, "err": fmt.Sprint(err),
 			"before_us": tb.Sub(t0).Microseconds(), "after_us": ta.Sub(t0).Microseconds()})
 		r.Bucket("l3_stack_requests", 1)
@@ -2226,7 +2253,13 @@ func stackCase(r *vkit.Run, i int) {
 		return o
 	}
 	var pend []pendViol
-	fail := func(key, what string) { pend = append(pend, pendViol{key, what, nil, len(trace) - 1}) }
+	fail := func(key, what string) {
+		if s.mapped {
+			key = strings.Replace(key, "stack:", "stack:v4mapped:", 1)
+			what += " [IPv4 clients arrive in the IPv4-mapped form ::ffff:a.b.c.d]"
+		}
+		pend = append(pend, pendViol{key, what, nil, len(trace) - 1})
+	}
 	// expectServed / expectDropped: the two observable outcomes
 	served := func(o obs) bool { return o.ran == 1 && o.writes == 1 }
 	silent := func(o obs) bool { return o.ran == 0 && o.writes == 0 }
